@@ -109,9 +109,86 @@ let c15 op a =
       if unique_after_sort ids then ok_ids (sort_ids ids) else "(err)"
   | _ -> "(unknown-op " ^ op ^ ")"
 
+
+(* ---------- C09 ---------- *)
+let z_of_string s = cz_of_z (ZA.of_string s)
+let string_of_cz x = ZA.to_string (z_of_cz x)
+let two128 = ZA.shift_left ZA.one 128
+let two127 = ZA.shift_left ZA.one 127
+type dres = DOk of ZA.t * n list | DErr | DPanic
+(* specification-level decoders: first terminated prefix, its mathematical value, range test *)
+let spec_dec (op : string) (bs : n list) : dres =
+  match split_leb bs with
+  | None -> DErr
+  | Some (p, rest) ->
+    (match op with
+     | "nat" -> DOk (z_of_n (leb_val p), rest)
+     | "int" -> DOk (z_of_cz (sleb_val p), rest)
+     | "u128" -> let v = z_of_n (leb_val p) in if ZA.lt v two128 then DOk (v, rest) else DErr
+     | "i128" -> let v = z_of_cz (sleb_val p) in if ZA.geq v (ZA.neg two127) && ZA.lt v two127 then DOk (v, rest) else DErr
+     | _ -> failwith "spec_dec")
+let of_res_n (r : (n * n list) res) = match r with Ok (v, rest) -> DOk (z_of_n v, rest) | Err _ -> DErr | Panic -> DPanic | OutOfFuel -> failwith "fuel"
+let of_res_z (r : (Model.z * n list) res) = match r with Ok (v, rest) -> DOk (z_of_cz v, rest) | Err _ -> DErr | Panic -> DPanic | OutOfFuel -> failwith "fuel"
+let mirror_dec (op : string) (bs : n list) : dres =
+  match op with
+  | "nat_decode" -> of_res_n (nat_decode bs)
+  | "int_decode" -> of_res_z (int_decode bs)
+  | "dec_u128" -> of_res_n (decode_nat128 Debug bs)
+  | "dec_i128" -> of_res_z (decode_int128 Debug bs)
+  | "msg_nat" -> of_res_n (de_nat bs)
+  | "msg_int" -> of_res_z (de_int bs)
+  | "msg_int_nat" -> of_res_z (de_int_of_nat bs)
+  | _ -> failwith "mirror_dec"
+let show_direct = function DOk (v, rest) -> Printf.sprintf "(ok %s %d)" (ZA.to_string v) (List.length rest) | DErr -> "(err)" | DPanic -> "(panic)"
+let show_msg = function DOk (v, []) -> Printf.sprintf "(ok %s)" (ZA.to_string v) | DOk _ -> "(err)" | DErr -> "(err)" | DPanic -> "(panic)"
+let spec_kind = function
+  | "c09.nat_decode" | "c09.msg_nat" | "c09.msg_int_nat" | "c09.msg_val_nat" -> "nat"
+  | "c09.int_decode" | "c09.msg_int" | "c09.msg_val_int" -> "int"
+  | "c09.dec_u128" | "c09.msg_u128" -> "u128"
+  | "c09.dec_i128" | "c09.msg_i128" -> "i128"
+  | _ -> failwith "spec_kind"
+let p61 = ZA.pred (ZA.shift_left ZA.one 61)
+let m1000003 = ZA.of_int 1000003
+let rec seq_dec kind (ps : n list list) acc =
+  match ps with
+  | [] -> Some (List.rev acc)
+  | p :: r -> (match spec_dec kind p with DOk (v, []) -> seq_dec kind r (v :: acc) | _ -> None)
+let c09 op a =
+  match op, a with
+  | ("c09.nat_decode" | "c09.int_decode" | "c09.dec_u128" | "c09.dec_i128"), [h] -> show_direct (spec_dec (spec_kind op) (unhex h))
+  | ("c09.msg_nat" | "c09.msg_int" | "c09.msg_int_nat" | "c09.msg_u128" | "c09.msg_i128" | "c09.msg_val_nat" | "c09.msg_val_int"), [h] ->
+      show_msg (spec_dec (spec_kind op) (unhex h))
+  | ("m.c09.nat_decode" | "m.c09.int_decode" | "m.c09.dec_u128" | "m.c09.dec_i128"), [h] ->
+      show_direct (mirror_dec (String.sub op 6 (String.length op - 6)) (unhex h))
+  | ("m.c09.msg_nat" | "m.c09.msg_int" | "m.c09.msg_int_nat"), [h] ->
+      show_msg (mirror_dec (String.sub op 6 (String.length op - 6)) (unhex h))
+  | "c09.sweep3", [dop; b0] ->
+      let kind = spec_kind dop and b0 = n_of_int (int_of_string b0) in
+      let acc = ref ZA.zero in
+      for b1 = 0 to 255 do for b2 = 0 to 255 do
+        let code = match spec_dec kind [b0; n_of_int b1; n_of_int b2] with
+          | DOk (v, rest) -> let vm = ZA.erem v m1000003 in ZA.add (ZA.mul vm (ZA.of_int 4)) (ZA.of_int (List.length rest + 1))
+          | _ -> ZA.zero in
+        acc := ZA.erem (ZA.add (ZA.mul !acc m1000003) code) p61
+      done done;
+      ZA.to_string !acc
+  | ("c09.msg_vec_nat" | "c09.msg_vec_int" | "c09.msg_vec_int_nat" | "c09.msg_map_int"), [ps] ->
+      let ps = List.map (fun x -> unhex (atom x)) (items (parse_sx ps)) in
+      let kind = if op = "c09.msg_vec_nat" || op = "c09.msg_vec_int_nat" then "nat" else "int" in
+      (match seq_dec kind ps [] with
+       | Some vs -> "(ok" ^ String.concat "" (List.map (fun v -> " " ^ ZA.to_string v) vs) ^ ")"
+       | None -> "(err)")
+  | ("c09.enc_nat" | "c09.enc_u128" | "c09.enc_msg_nat" | "c09.enc_val_nat"), [d] -> hex (enc_u (n_of_string d))
+  | ("c09.enc_int" | "c09.enc_i128" | "c09.enc_msg_int" | "c09.enc_val_int"), [d] -> hex (enc_s (z_of_string d))
+  | "m.c09.enc_nat", [d] -> hex (nat_encode (n_of_string d))
+  | "m.c09.enc_int", [d] -> hex (int_encode (z_of_string d))
+  | _ -> "(unknown-op " ^ op ^ ")"
+
 let dispatch (op : string) (a : string list) : string =
-  let prop = try String.sub op 0 (String.index op '.') with Not_found -> op in
+  let base = if String.length op > 2 && String.sub op 0 2 = "m." then String.sub op 2 (String.length op - 2) else op in
+  let prop = try String.sub base 0 (String.index base '.') with Not_found -> base in
   match prop with
+  | "c09" -> c09 op a
   | "c15" -> c15 op a
   | _ -> "(unknown-op " ^ op ^ ")"
 
